@@ -114,10 +114,12 @@ def served(chk, prog, names):
         on = c04.cc_decide(r, tm.sym("emu.fast_load", 1))
         chk.check(called == bool(stopped and on), key, "fast loader runs=%s with deck stopped=%s, option=%s" % (called, stopped, on))
         chk.count("served-paths")
+    # the loader is reached only through the guarded event handler, and that only from the emulation loop
+    # (private helpers in between are followed up to the API entry points)
     callers = set(s.fn.path.split("::")[-1] for s in cg.callers_of(FL))
     chk.check(callers == {"process_fast_load_event"}, key + "/callers", "fast_load_tap is called from %s" % sorted(callers))
-    callers = set(s.fn.path.split("::")[-1] for s in cg.callers_of(PF))
-    chk.check(callers == {"emulate_frames"}, key + "/callers2", "process_fast_load_event is called from %s" % sorted(callers))
+    callers = cc.entry_points_reaching(prog, cg, names, PF)
+    chk.check(callers == {"emulate_frames"}, key + "/callers2", "process_fast_load_event can be reached from %s" % sorted(callers))
     chk.floor("served-paths", 3)
 
 
